@@ -239,7 +239,34 @@ fn arm_watchdog(k: u64, secs: u64) -> std::sync::Arc<std::sync::atomic::AtomicBo
             }
         }
         if !d.load(std::sync::atomic::Ordering::Relaxed) {
-            util::emit(&json!({"t": "hang", "k": k, "after_s": secs}));
+            // evidence taken from inside the stuck execution itself: state and CPU time of every thread, twice, 1.5 s apart
+            // ("every thread asleep and none made any progress" cannot be produced by a slow machine: a starved thread is runnable)
+            let me = unsafe { libc::syscall(libc::SYS_gettid) } as u64;
+            let sample = || -> Vec<(u64, char, u64)> {
+                let mut v = vec![];
+                if let Ok(rd) = std::fs::read_dir("/proc/self/task") {
+                    for e in rd.flatten() {
+                        let tid: u64 = e.file_name().to_string_lossy().parse().unwrap_or(0);
+                        if let Ok(st) = std::fs::read_to_string(e.path().join("stat")) {
+                            if let Some(rest) = st.rsplit_once(')').map(|x| x.1) {
+                                let f: Vec<&str> = rest.split_whitespace().collect();
+                                let state = f.first().and_then(|x| x.chars().next()).unwrap_or('?');
+                                let ticks = f.get(11).and_then(|x| x.parse::<u64>().ok()).unwrap_or(0) + f.get(12).and_then(|x| x.parse::<u64>().ok()).unwrap_or(0);
+                                v.push((tid, state, ticks));
+                            }
+                        }
+                    }
+                }
+                v
+            };
+            let a = sample();
+            std::thread::sleep(std::time::Duration::from_millis(1500));
+            let b = sample();
+            let others: Vec<&(u64, char, u64)> = b.iter().filter(|t| t.0 != me).collect();
+            let all_asleep = !others.is_empty() && others.iter().all(|t| t.1 == 'S');
+            let progress: u64 = others.iter().map(|t| t.2.saturating_sub(a.iter().find(|x| x.0 == t.0).map(|x| x.2).unwrap_or(t.2))).sum();
+            let still_stuck = !d.load(std::sync::atomic::Ordering::Relaxed);
+            util::emit(&json!({"t": "hang", "k": k, "after_s": secs, "threads": others.len(), "all_asleep": all_asleep && still_stuck, "cpu_ticks_in_1500ms": progress}));
             std::process::exit(3);
         }
     });
